@@ -5,10 +5,7 @@ from .. import tablegen
 ID = "C11"
 SUITES = ["range", "table"]
 LEAN_MODULES = ["VpnCloud.Proofs.C11"]
-THEOREMS = [
-    "VpnCloud.Proofs.C11.matches_iff_prefix",
-    "VpnCloud.Proofs.C11.no_u8_overflow",
-]
+THEOREMS = ["VpnCloud.Proofs.C11." + n for n in ("matches_iff_prefix", "no_u8_overflow", "lookup_spec", "lookup_most_specific", "cache_lifetime")]
 BATCH = 200
 SEARCH_BUDGET_S = 300
 RULE = ("suite range: `match base/prefix addr` over the 8-bit universe (exhaustive in thorough), a 16-bit universe and random "
